@@ -1,37 +1,38 @@
 CFG = {
-    "modules": ["Parsley.Props.C09"],
+    "modules": ["Parsley.Props.C09", "Parsley.Lemmas.TypeCheckTerm", "Parsley.Spec.WorkBound"],
     "theorems": [
         "Parsley.C09.machine_deterministic", "Parsley.C09.machine_fuel_independent",
         "Parsley.C09.machine_steps_le_fuel", "Parsley.C09.machine_is_a_loop",
-        "Parsley.C09.machine_terminates_partial",
+        "Parsley.C09.machine_terminates", "Parsley.C09.machine_terminates_tree", "Parsley.C09.machine_work_bound",
+        "Parsley.C09.machine_finished_run_stable",
         "Parsley.C09.selfref_terminates_witness", "Parsley.C09.parent_cycle_terminates_witness",
     ],
-    "partial": {
-        "Parsley.C09.machine_terminates_partial":
-            "proved for all inputs: a run that finishes within some fuel has a verdict and step count independent of the fuel, and "
-            "steps <= fuel; NOT proved: that the explicit bound 2 + 4*|objects|*|nodes|*(1+maxKids+maxWidth) on work-loop iterations "
-            "always suffices (potential argument sketched in Props/C09.lean) -- the judge checks the real hook counter against that "
-            "bound on every case, and the model's counter must equal the real one",
-    },
+    "partial": {},
     "n": {"quick": 2000, "thorough": 40000},
     "exhaustive": {"quick": False, "thorough": True},
     "shrink": False,
     "rule": "reference chains of 1..400 (thorough 1500) and 10^5 links, linear and cyclic, against a recursive named type (run in a "
             "256 KiB-stack thread); the C08 small enumeration (self reference, reference to reference); random graphs over <= 4 ids "
-            "with arbitrary back edges x random specs with mutually recursive names; every case is run twice; non-trivial = named "
+            "with arbitrary back edges x random specs with mutually recursive names; n/5 cyclic container graphs whose cycle passes "
+            "through a disjunction-typed edge where an earlier alternative fails one level down; every case is run twice; non-trivial = named "
             "(recursive) specification or a reference cycle in the graph",
     "trusted_base": COMMON_TB + [
         "modelled, not verified: BTreeSet/VecDeque/Rc semantics; machine stack and wall-clock are observed, not modelled",
-        "verif hook C08-00 (work-loop iteration counter, thread-local)"],
+        "verif hook C08-00 (work-loop iteration counter, thread-local); harness watchdog (worker process, `hang` after 8 s)",
+        "the theorem covers every flag configuration with a monotone memo (trail = false), i.e. the code as it is and the "
+        "pinned commit; not the unapplied memo-leak repair"],
     "assumptions": ["specifications have no empty disjunction (panic in the code; skipped)"],
 }
 LEVEL = {
     "design_ref": "DESIGN.md 3.C09",
     "technique": "Lean 4 theorems over the small-step model of check_type (shared with C08) + exact step-count correspondence with the "
                  "verif counter of the real work loop + small-stack deep-chain runs",
-    "text": "Machine-checked for all graphs (cyclic, self-referential) and all specifications (mutually recursive names): the machine is "
-            "a function (deterministic verdict and step count), its result is independent of the fuel once it finishes, the work-loop "
-            "iteration count is bounded by the fuel, and one unit of fuel is one non-recursive step (constant call depth). The explicit "
-            "polynomial work bound in the number of (object, node) pairs is checked at run time against the real iteration counter on "
-            "every case (partial: not proved). The real checker is run twice per case, and on 10^5-link chains in a 256 KiB stack.",
+    "text": "Machine-checked for all graphs (cyclic, self-referential) and all specifications (mutually recursive names): the machine "
+            "finishes within the EXPLICIT bound workBound = costA*|objects|*|queued forms of spec nodes| + Wc + 5 iterations of the "
+            "get_next_check loop (machine_terminates; potential argument over the duplicate-free memo inside a finite universe closed "
+            "under everything the machine queues), hence the work-loop iteration count is <= workBound and independent of the fuel "
+            "(machine_work_bound); the machine is a function (deterministic verdict and step count) and one unit of fuel is one "
+            "non-recursive step (constant call depth). The judge compares the REAL iteration counter of check_type with workBound on "
+            "every case and the model's counter must equal the real one. The real checker is run twice per case, and on 10^5-link "
+            "chains in a 256 KiB stack (runtime half of the stack claim: observed, not proved).",
 }
